@@ -80,6 +80,75 @@ pub fn explore(ctx: &mut Ctx, label: &str) {
         }
     }
 
+    // ---- same record id supplied under different spellings of its name: which name survives is
+    // unspecified (don't-care), everything else must still hold
+    for n in 2..=3usize {
+        let dags = all_dags(n);
+        ctx.space(&format!("{label}/builder/D{n}/renamed-records"), &format!("{} labelled DAGs x 2^{n} subsets x |S|! orders; every later fact of a record spells the record's name differently", dags.len()));
+        for d in &dags {
+            for s in 1..(1u32 << n) {
+                if !ctx.take() {
+                    continue;
+                }
+                ctx.state();
+                if inherits(d, s) {
+                    ctx.nontrivial();
+                }
+                let base = Facts::from_dag(d, &POOL);
+                let ids: Vec<u32> = base.terms.iter().map(|t| t.id).collect();
+                let groups = AnnGroups::new(s, &ids);
+                for p in permutations(groups.g1.len()) {
+                    for variant in 0..2 {
+                        let mut anns = if variant == 0 { groups.sequential(&p) } else { groups.interleaved() };
+                        let canonical: Vec<(crate::model::Kind, u32, String)> = anns.iter().map(|a| (a.kind, a.id, a.name.clone())).collect();
+                        for (i, a) in anns.iter_mut().enumerate() {
+                            if i % 2 == 1 || i > 2 {
+                                a.name = format!("{} (spelling {i})", a.name.to_lowercase());
+                            }
+                        }
+                        let f = Facts { anns, ..base.clone() };
+                        // the model keeps the canonical name; the observation's name is normalised to it
+                        let mut fm = f.clone();
+                        for (a, c) in fm.anns.iter_mut().zip(canonical.iter()) {
+                            a.name = c.2.clone();
+                        }
+                        let r = RefOnt::derive(&fm);
+                        ctx.transitions(f.n_steps());
+                        ctx.exec();
+                        ctx.validated();
+                        let case = || json!({"facts": f.to_json(), "rust": f.to_rust(false)});
+                        match drive::build(&f, Mode::Minimal) {
+                            Err(e) => ctx.violation("Builder", "[builder] construction fails on valid facts", json!({"case": case(), "observed": e})),
+                            Ok(ont) => match crate::obs::Obs::of(&ont) {
+                                Err(inc) => ctx.violation(&inc.site, "[builder, renamed records] read API inconsistent or panicking", json!({"case": case(), "observed": inc.what})),
+                                Ok(mut obs) => {
+                                    for k in 0..3 {
+                                        for rec in obs.recs[k].iter_mut() {
+                                            let supplied = f.anns.iter().any(|a| a.kind.idx() == k && a.id == rec.id && a.name == rec.name);
+                                            if supplied {
+                                                if let Some(m) = r.recs[k].get(&rec.id) {
+                                                    rec.name = m.name.clone();
+                                                }
+                                            }
+                                        }
+                                    }
+                                    let exp = crate::obs::Obs::expected(&r, Mode::Minimal);
+                                    if let Some((site, sig, det)) = obs.diff(&exp, false) {
+                                        ctx.violation(&site, &format!("[builder, renamed records] {sig}"), json!({"case": case(), "difference": det}));
+                                    }
+                                }
+                            },
+                        }
+                        if variant == 1 {
+                            break;
+                        }
+                    }
+                }
+                ctx.sample(|| json!({"dag": d.describe(), "ids": ids, "S": crate::space::bits(s, n), "renamed": true}));
+            }
+        }
+    }
+
     // ---- binary path (ids contain both roots)
     {
         let n = 4;
